@@ -48,28 +48,30 @@ theorem setWhileBN_eq (v : BidiClass) : ∀ (it : List Nat) (pcs : Classes), it.
       simp only [h1, h2, if_true, Bool.false_eq_true, if_false]
       rfl
 
-/-- `setWhileNsmOrBN` writes the longest prefix of original-NSM / BN units -/
-theorem setWhileNsmOrBN_eq (ocs : Classes) (v : BidiClass) : ∀ (it : List Nat) (pcs : Classes), it.Nodup →
-    setWhileNsmOrBN ocs pcs it v = setAll pcs (it.takeWhile (condP ocs pcs)) v
-  | [], _, _ => rfl
-  | idx :: rest, pcs, hnd => by
-    have hnd' := List.nodup_cons.1 hnd
+/-- the original NSMs among a list of units -/
+def nsmU (ocs : Classes) (i : Nat) : Bool := cget ocs i == NSM
+
+/-- `setWhileNsmOrBN` writes the original NSMs of the longest prefix of original-NSM / removed units -/
+theorem setWhileNsmOrBN_eq (ocs : Classes) (v : BidiClass) : ∀ (it : List Nat) (pcs : Classes),
+    setWhileNsmOrBN ocs pcs it v = setAll pcs ((it.takeWhile (condP ocs)).filter (nsmU ocs)) v
+  | [], _ => rfl
+  | idx :: rest, pcs => by
     simp only [setWhileNsmOrBN, List.takeWhile_cons]
-    by_cases h : condP ocs pcs idx = true
-    · have h' : (cget ocs idx == NSM || cget pcs idx == BN) = true := h
-      simp only [h', h, if_true]
-      rw [setWhileNsmOrBN_eq ocs v rest (pcs.set idx v) hnd'.2, setAll_cons]
-      congr 1
-      apply takeWhile_congr_mem
-      intro i hi
-      unfold condP
-      rw [cget_set_ne]
-      rintro rfl; exact hnd'.1 hi
-    · have h' : (cget ocs idx == NSM || cget pcs idx == BN) = false := by
-        simpa [condP] using h
-      have h2 : condP ocs pcs idx = false := by simpa using h
-      simp only [h', h2, Bool.false_eq_true, if_false]
-      rfl
+    by_cases h : (cget ocs idx == NSM) = true
+    · have hc : condP ocs idx = true := by simp [condP, h]
+      have hn : nsmU ocs idx = true := h
+      simp only [h, hc, if_true, List.filter_cons, hn]
+      rw [setWhileNsmOrBN_eq ocs v rest (pcs.set idx v), setAll_cons]
+    · have h' : (cget ocs idx == NSM) = false := by simpa using h
+      have hn : nsmU ocs idx = false := h'
+      by_cases hr : (cget ocs idx).removedByX9 = true
+      · have hc : condP ocs idx = true := by simp [condP, hr]
+        simp only [h', hr, hc, Bool.false_eq_true, if_false, if_true, List.filter_cons, hn]
+        exact setWhileNsmOrBN_eq ocs v rest pcs
+      · have hr' : (cget ocs idx).removedByX9 = false := by simpa using hr
+        have hc : condP ocs idx = false := by simp [condP, h', hr']
+        simp only [h', hr', hc, Bool.false_eq_true, if_false, List.filter_nil]
+        rfl
 
 /-- membership in `takeWhile` of a strictly increasing list, by values -/
 theorem mem_takeWhile_lt (P : Nat → Bool) : ∀ (xs : List Nat), xs.Pairwise (· < ·) → ∀ j,
@@ -186,25 +188,21 @@ theorem split_mem (U A M Z : List Nat) (o c : Nat) (hU : U = A ++ o :: (M ++ c :
       · exact h
 
 /-- **the writes of `n0Pair`, pointwise**: the five loops overwrite exactly the units `WrV` -/
-theorem n0_writes_bn (ocs pcs : Classes) (U A M Z : List Nat) (o c : Nat) (v : BidiClass) (hv : v ≠ BN)
-    (hU : U = A ++ o :: (M ++ c :: Z)) (hs : U.Pairwise (· < ·)) (hlt : ∀ i ∈ U, i < pcs.length)
-    (hnc : cget ocs c ≠ NSM) :
+theorem n0_writes_bn (ocs pcs : Classes) (U A M Z : List Nat) (o c : Nat) (v : BidiClass)
+    (hU : U = A ++ o :: (M ++ c :: Z)) (hs : U.Pairwise (· < ·)) (hlt : ∀ i ∈ U, i < pcs.length) :
     ∃ out, setWhileNsmOrBN ocs (setWhileNsmOrBN ocs
         (setWhileBN (setRange (setRange pcs o 1 v) c 1 v) A.reverse v) (M ++ c :: Z) v) Z v = out ∧
       out.length = pcs.length ∧
       (∀ j, (WrV U ocs pcs o c j → cget out j = v) ∧ (¬ WrV U ocs pcs o c j → cget out j = cget pcs j)) ∧
-      (∀ j ∈ M, cget out j = if j ∈ M.takeWhile (condP ocs pcs) then v else cget pcs j) ∧
-      (∀ j ∈ Z, cget out j = if j ∈ Z.takeWhile (condP ocs pcs) then v else cget pcs j) := by
+      (∀ j ∈ M, cget out j =
+        if j ∈ M.takeWhile (condP ocs) ∧ nsmU ocs j = true then v else cget pcs j) ∧
+      (∀ j ∈ Z, cget out j =
+        if j ∈ Z.takeWhile (condP ocs) ∧ nsmU ocs j = true then v else cget pcs j) := by
   obtain ⟨mA, mM, mZ, hoc, sA, sM, sZ⟩ := split_mem U A M Z o c hU hs
   have hoU : o ∈ U := by rw [hU]; simp
   have hcU : c ∈ U := by rw [hU]; simp
-  have hnd : U.Nodup := hs.imp (fun h => Nat.ne_of_lt h)
   have sAr : A.reverse.Pairwise (· > ·) := by rw [List.pairwise_reverse]; exact sA
   have ndAr : A.reverse.Nodup := sAr.imp (fun h => Nat.ne_of_gt h)
-  have ndZ : Z.Nodup := sZ.imp (fun h => Nat.ne_of_lt h)
-  have ndMcZ : (M ++ c :: Z).Nodup := by
-    rw [hU] at hnd
-    exact (List.nodup_cons.1 (List.nodup_append.1 hnd).2.1).2
   -- stage 1
   let pcs1 := (pcs.set o v).set c v
   have h1 : ∀ j, cget pcs1 j = if j = o ∨ j = c then v else cget pcs j := by
@@ -234,65 +232,64 @@ theorem n0_writes_bn (ocs pcs : Classes) (U A M Z : List Nat) (o c : Nat) (v : B
     intro j; show cget (setAll pcs1 BA v) j = _; rw [cget_setAll, hl1]
   have hBAmem : ∀ j, j ∈ BA → j ∈ U ∧ j < o := fun j hj =>
     (mA j).1 (List.mem_reverse.1 (List.takeWhile_subset _ hj))
-  -- stage 3
-  let TO := M.takeWhile (condP ocs pcs)
-  have hTO : (M ++ c :: Z).takeWhile (condP ocs pcs2) = TO := by
-    have hc2 : condP ocs pcs2 c = false := by
-      have : cget pcs2 c = v := by
-        rw [h2, h1]
-        have : ¬ c ∈ BA := fun h => by have := (hBAmem c h).2; omega
-        simp [this]
-      unfold condP
-      rw [this]
-      have e1 : (cget ocs c == NSM) = false := by
-        cases hb : cget ocs c == NSM with
-        | false => rfl
-        | true => exact absurd ((beq_iff _ _).1 hb) hnc
-      have e2 : (v == BN) = false := by
-        cases hb : v == BN with
-        | false => rfl
-        | true => exact absurd ((beq_iff _ _).1 hb) hv
-      rw [e1, e2]; rfl
-    rw [takeWhile_append_stop _ c Z hc2 M]
-    apply takeWhile_congr_mem
-    intro i hi
-    have hiM := (mM i).1 hi
-    unfold condP
-    rw [h2, h1]
-    have e0 : ¬ i ∈ BA := fun h => by have := (hBAmem i h).2; omega
-    have e1 : ¬ i = o := by omega
-    have e2 : ¬ i = c := by omega
-    simp [e0, e1, e2]
-  let pcs3 := setAll pcs2 TO v
-  have hl2 : pcs2.length = pcs.length := by show (setAll pcs1 BA v).length = _; rw [length_setAll, hl1]
-  have h3 : ∀ j, cget pcs3 j = if j ∈ TO ∧ j < pcs.length then v else cget pcs2 j := by
-    intro j; show cget (setAll pcs2 TO v) j = _; rw [cget_setAll, hl2]
+  -- stage 3: the sweep after `o` runs over `M`; if it gets through `M` and `c` is an original NSM
+  -- it goes on over `c` and `Z` (writing what the sweep after `c` writes anyway)
+  have sMcZ : (M ++ c :: Z).Pairwise (· < ·) := by
+    rw [hU] at hs
+    exact (List.pairwise_cons.1 (List.pairwise_append.1 hs).2.1).2
+  let TO := (M.takeWhile (condP ocs)).filter (nsmU ocs)
+  let TC := (Z.takeWhile (condP ocs)).filter (nsmU ocs)
+  let TO' := ((M ++ c :: Z).takeWhile (condP ocs)).filter (nsmU ocs)
+  have hTOiff : ∀ j, j ∈ TO ↔ j ∈ M.takeWhile (condP ocs) ∧ nsmU ocs j = true := fun j => List.mem_filter
+  have hTCiff : ∀ j, j ∈ TC ↔ j ∈ Z.takeWhile (condP ocs) ∧ nsmU ocs j = true := fun j => List.mem_filter
   have hTOmem : ∀ j, j ∈ TO → j ∈ U ∧ o < j ∧ j < c := fun j hj =>
-    (mM j).1 (List.takeWhile_subset _ hj)
+    (mM j).1 (List.takeWhile_subset _ ((hTOiff j).1 hj).1)
+  have hTCmem : ∀ j, j ∈ TC → j ∈ U ∧ c < j := fun j hj =>
+    (mZ j).1 (List.takeWhile_subset _ ((hTCiff j).1 hj).1)
+  have hTO'sub : ∀ j, j ∈ TO → j ∈ TO' := by
+    intro j hj
+    obtain ⟨h1, h2⟩ := (hTOiff j).1 hj
+    refine List.mem_filter.2 ⟨?_, h2⟩
+    rw [mem_takeWhile_lt _ _ sM] at h1
+    rw [mem_takeWhile_lt _ _ sMcZ]
+    refine ⟨by simp [h1.1], ?_⟩
+    intro i hi hij
+    have hjc := ((mM j).1 h1.1).2.2
+    simp only [List.mem_append, List.mem_cons] at hi
+    rcases hi with hi | rfl | hi
+    · exact h1.2 i hi hij
+    · omega
+    · have := ((mZ i).1 hi).2; omega
+  have hTO'sup : ∀ j, j ∈ TO' → j ∈ TO ∨ j = c ∨ j ∈ TC := by
+    intro j hj
+    obtain ⟨h1, h2⟩ := List.mem_filter.1 hj
+    rw [mem_takeWhile_lt _ _ sMcZ] at h1
+    obtain ⟨hjm, hall⟩ := h1
+    simp only [List.mem_append, List.mem_cons] at hjm
+    rcases hjm with hjm | rfl | hjm
+    · left
+      refine (hTOiff j).2 ⟨?_, h2⟩
+      rw [mem_takeWhile_lt _ _ sM]
+      exact ⟨hjm, fun i hi hij => hall i (by simp [hi]) hij⟩
+    · exact Or.inr (Or.inl rfl)
+    · right; right
+      refine (hTCiff j).2 ⟨?_, h2⟩
+      rw [mem_takeWhile_lt _ _ sZ]
+      exact ⟨hjm, fun i hi hij => hall i (by simp [hi]) hij⟩
+  let pcs3 := setAll pcs2 TO' v
+  have hl2 : pcs2.length = pcs.length := by show (setAll pcs1 BA v).length = _; rw [length_setAll, hl1]
+  have h3 : ∀ j, cget pcs3 j = if j ∈ TO' ∧ j < pcs.length then v else cget pcs2 j := by
+    intro j; show cget (setAll pcs2 TO' v) j = _; rw [cget_setAll, hl2]
   -- stage 4
-  let TC := Z.takeWhile (condP ocs pcs)
-  have hTC : Z.takeWhile (condP ocs pcs3) = TC := by
-    apply takeWhile_congr_mem
-    intro i hi
-    have hiZ := (mZ i).1 hi
-    unfold condP
-    rw [h3, h2, h1]
-    have e0 : ¬ i ∈ BA := fun h => by have := (hBAmem i h).2; omega
-    have e3 : ¬ i ∈ TO := fun h => by have := (hTOmem i h).2; omega
-    have e1 : ¬ i = o := by omega
-    have e2 : ¬ i = c := by omega
-    simp [e0, e1, e2, e3]
   let pcs4 := setAll pcs3 TC v
-  have hl3 : pcs3.length = pcs.length := by show (setAll pcs2 TO v).length = _; rw [length_setAll, hl2]
+  have hl3 : pcs3.length = pcs.length := by show (setAll pcs2 TO' v).length = _; rw [length_setAll, hl2]
   have h4 : ∀ j, cget pcs4 j = if j ∈ TC ∧ j < pcs.length then v else cget pcs3 j := by
     intro j; show cget (setAll pcs3 TC v) j = _; rw [cget_setAll, hl3]
-  have hTCmem : ∀ j, j ∈ TC → j ∈ U ∧ c < j := fun j hj =>
-    (mZ j).1 (List.takeWhile_subset _ hj)
   -- the model expression
   have hmodel : setWhileNsmOrBN ocs (setWhileNsmOrBN ocs
         (setWhileBN (setRange (setRange pcs o 1 v) c 1 v) A.reverse v) (M ++ c :: Z) v) Z v = pcs4 := by
     rw [setRange_one, setRange_one, setWhileBN_eq v A.reverse _ ndAr, hBA,
-      setWhileNsmOrBN_eq ocs v (M ++ c :: Z) _ ndMcZ, hTO, setWhileNsmOrBN_eq ocs v Z _ ndZ, hTC]
+      setWhileNsmOrBN_eq ocs v (M ++ c :: Z) _, setWhileNsmOrBN_eq ocs v Z _]
   -- the combined pointwise description
   have hall : ∀ j, cget pcs4 j = if j = o ∨ j = c ∨ j ∈ BA ∨ j ∈ TO ∨ j ∈ TC then v else cget pcs j := by
     intro j
@@ -300,10 +297,18 @@ theorem n0_writes_bn (ocs pcs : Classes) (U A M Z : List Nat) (o c : Nat) (v : B
     by_cases e4 : j ∈ TC
     · simp [e4, hlt j (hTCmem j e4).1]
     by_cases e3 : j ∈ TO
-    · simp [e3, hlt j (hTOmem j e3).1]
+    · simp [e3, hTO'sub j e3, hlt j (hTOmem j e3).1]
+    by_cases e2 : j = c
+    · simp [e2]
+    have e3' : ¬ j ∈ TO' := fun h => by
+      rcases hTO'sup j h with h | h | h
+      · exact e3 h
+      · exact e2 h
+      · exact e4 h
     by_cases e0 : j ∈ BA
     · simp [e0, hlt j (hBAmem j e0).1]
-    simp [e4, e3, e0]
+    simp [e4, e3, e3', e0]
+  have hnsm : ∀ j, nsmU ocs j = true ↔ cget ocs j = NSM := fun j => beq_iff _ _
   -- `WrV` by lists
   have hWr : ∀ j, WrV U ocs pcs o c j ↔ (j = o ∨ j = c ∨ j ∈ BA ∨ j ∈ TO ∨ j ∈ TC) := by
     intro j
@@ -314,35 +319,35 @@ theorem n0_writes_bn (ocs pcs : Classes) (U A M Z : List Nat) (o c : Nat) (v : B
       constructor
       · rintro ⟨⟨a, b⟩, h⟩; exact ⟨a, b, fun i hi h1 h2 => h i ⟨hi, h2⟩ h1⟩
       · rintro ⟨a, b, h⟩; exact ⟨⟨a, b⟩, fun i hi h1 => h i hi.1 h1 hi.2⟩
-    have eTO : j ∈ TO ↔ (j ∈ U ∧ o < j ∧ j < c ∧ ∀ i ∈ U, o < i → i ≤ j → condP ocs pcs i = true) := by
-      show j ∈ M.takeWhile _ ↔ _
-      rw [mem_takeWhile_lt _ _ sM]
+    have eTO : j ∈ TO ↔ (j ∈ U ∧ o < j ∧ j < c ∧ cget ocs j = NSM ∧
+        ∀ i ∈ U, o < i → i ≤ j → condP ocs i = true) := by
+      rw [hTOiff, mem_takeWhile_lt _ _ sM, hnsm]
       simp only [mM]
       constructor
-      · rintro ⟨⟨a, b, b'⟩, h⟩; exact ⟨a, b, b', fun i hi h1 h2 => h i ⟨hi, h1, by omega⟩ h2⟩
-      · rintro ⟨a, b, b', h⟩; exact ⟨⟨a, b, b'⟩, fun i hi h1 => h i hi.1 hi.2.1 h1⟩
-    have eTC : j ∈ TC ↔ (j ∈ U ∧ c < j ∧ ∀ i ∈ U, c < i → i ≤ j → condP ocs pcs i = true) := by
-      show j ∈ Z.takeWhile _ ↔ _
-      rw [mem_takeWhile_lt _ _ sZ]
+      · rintro ⟨⟨⟨a, b, b'⟩, h⟩, hn⟩; exact ⟨a, b, b', hn, fun i hi h1 h2 => h i ⟨hi, h1, by omega⟩ h2⟩
+      · rintro ⟨a, b, b', hn, h⟩; exact ⟨⟨⟨a, b, b'⟩, fun i hi h1 => h i hi.1 hi.2.1 h1⟩, hn⟩
+    have eTC : j ∈ TC ↔ (j ∈ U ∧ c < j ∧ cget ocs j = NSM ∧
+        ∀ i ∈ U, c < i → i ≤ j → condP ocs i = true) := by
+      rw [hTCiff, mem_takeWhile_lt _ _ sZ, hnsm]
       simp only [mZ]
       constructor
-      · rintro ⟨⟨a, b⟩, h⟩; exact ⟨a, b, fun i hi h1 h2 => h i ⟨hi, h1⟩ h2⟩
-      · rintro ⟨a, b, h⟩; exact ⟨⟨a, b⟩, fun i hi h1 => h i hi.1 hi.2 h1⟩
+      · rintro ⟨⟨⟨a, b⟩, h⟩, hn⟩; exact ⟨a, b, hn, fun i hi h1 h2 => h i ⟨hi, h1⟩ h2⟩
+      · rintro ⟨a, b, hn, h⟩; exact ⟨⟨⟨a, b⟩, fun i hi h1 => h i hi.1 hi.2 h1⟩, hn⟩
     rw [eBA, eTO, eTC]
     unfold WrV
     constructor
-    · rintro ⟨hjU, h | h | ⟨a, b⟩ | ⟨a, b, b'⟩ | ⟨a, b⟩⟩
+    · rintro ⟨hjU, h | h | ⟨a, b⟩ | ⟨a, b, b', b''⟩ | ⟨a, b, b'⟩⟩
       · exact Or.inl h
       · exact Or.inr (Or.inl h)
       · exact Or.inr (Or.inr (Or.inl ⟨hjU, a, b⟩))
-      · exact Or.inr (Or.inr (Or.inr (Or.inl ⟨hjU, a, b, b'⟩)))
-      · exact Or.inr (Or.inr (Or.inr (Or.inr ⟨hjU, a, b⟩)))
-    · rintro (h | h | ⟨hjU, a, b⟩ | ⟨hjU, a, b, b'⟩ | ⟨hjU, a, b⟩)
+      · exact Or.inr (Or.inr (Or.inr (Or.inl ⟨hjU, a, b, b', b''⟩)))
+      · exact Or.inr (Or.inr (Or.inr (Or.inr ⟨hjU, a, b, b'⟩)))
+    · rintro (h | h | ⟨hjU, a, b⟩ | ⟨hjU, a, b, b', b''⟩ | ⟨hjU, a, b, b'⟩)
       · exact ⟨h ▸ hoU, Or.inl h⟩
       · exact ⟨h ▸ hcU, Or.inr (Or.inl h)⟩
       · exact ⟨hjU, Or.inr (Or.inr (Or.inl ⟨a, b⟩))⟩
-      · exact ⟨hjU, Or.inr (Or.inr (Or.inr (Or.inl ⟨a, b, b'⟩)))⟩
-      · exact ⟨hjU, Or.inr (Or.inr (Or.inr (Or.inr ⟨a, b⟩)))⟩
+      · exact ⟨hjU, Or.inr (Or.inr (Or.inr (Or.inl ⟨a, b, b', b''⟩)))⟩
+      · exact ⟨hjU, Or.inr (Or.inr (Or.inr (Or.inr ⟨a, b, b'⟩)))⟩
   refine ⟨pcs4, hmodel, ?_, ?_, ?_, ?_⟩
   · show (setAll pcs3 TC v).length = _; rw [length_setAll, hl3]
   · intro j
@@ -357,8 +362,7 @@ theorem n0_writes_bn (ocs pcs : Classes) (U A M Z : List Nat) (o c : Nat) (v : B
     have e4 : ¬ j ∈ TC := fun h => by have := (hTCmem j h).2; omega
     have e1 : ¬ j = o := by omega
     have e2 : ¬ j = c := by omega
-    simp only [e0, e4, e1, e2, false_or, or_false]
-    rfl
+    simp only [e0, e4, e1, e2, false_or, or_false, hTOiff]
   · intro j hj
     have hjZ := (mZ j).1 hj
     rw [hall]
@@ -366,7 +370,6 @@ theorem n0_writes_bn (ocs pcs : Classes) (U A M Z : List Nat) (o c : Nat) (v : B
     have e3 : ¬ j ∈ TO := fun h => by have := (hTOmem j h).2; omega
     have e1 : ¬ j = o := by omega
     have e2 : ¬ j = c := by omega
-    simp only [e0, e3, e1, e2, false_or]
-    rfl
+    simp only [e0, e3, e1, e2, false_or, hTCiff]
 
 end UBidi.Lemmas.C01Neutral
